@@ -222,6 +222,10 @@ var sundays = []time.Time{
 	time.Date(2023, 3, 19, 0, 0, 0, 0, time.UTC), // week with European DST change
 	time.Date(2024, 12, 29, 0, 0, 0, 0, time.UTC), // year change
 	time.Date(2021, 10, 24, 0, 0, 0, 0, time.UTC), time.Date(2030, 6, 30, 0, 0, 0, 0, time.UTC),
+	// recordings from years in which Moscow civil time was UTC+4 (2011-2014, and summers before): GLONASS time is UTC+3 regardless
+	time.Date(2013, 6, 2, 0, 0, 0, 0, time.UTC), time.Date(2010, 7, 4, 0, 0, 0, 0, time.UTC), time.Date(2008, 1, 13, 0, 0, 0, 0, time.UTC),
+	time.Date(2014, 10, 26, 0, 0, 0, 0, time.UTC), // the week in which Moscow changed from UTC+4 to UTC+3
+	time.Date(1999, 8, 22, 0, 0, 0, 0, time.UTC),
 }
 
 var rollPoints = []int64{-10800000, -18000, -4000, 0}
@@ -292,6 +296,13 @@ func genHistory(rng *rand.Rand, firstNotBeforeT bool) (time.Time, time.Time, []o
 		if rng.Intn(25) == 0 {
 			nt := []int{1104, 1107, 1114, 1117, 1134, 1137, 1005, 1230}[rng.Intn(8)]
 			obs = append(obs, obsSpec{c: "noise", noise: gen.Frame(rng, nt, 22+rng.Intn(10), 0)})
+			continue
+		}
+		if rng.Intn(25) == 0 {
+			// a frame of this constellation damaged in transit (CRC fails) whose timestamp field claims another time of the week
+			f := msmFrame(rng, mt, uint(rng.Intn(604800000)))
+			f[len(f)-1-rng.Intn(3)] ^= byte(1 + rng.Intn(255))
+			obs = append(obs, obsSpec{c: "noise", noise: f})
 			continue
 		}
 		var u int64
